@@ -8,7 +8,7 @@ import os
 
 from ..common import SPEC, Scratch, rng, MachineryError, B
 from ..report import Report
-from .. import tlc, bf3lib as L, bec2lib as B2, bec2gen as G
+from .. import tlc, bf3lib as L, bec2lib as B2, bec2gen as G, errpaths as E
 from ..oracle_openssl import Oracle
 from . import bec2common as C
 from .mc_bec2 import run_mc_bec2
@@ -78,6 +78,9 @@ def run(tier):
             plan = G.Plan(r, rcpts, kinds, explicit_key=False)
             f, text, _ = C.write_plan(rec, seams, orc, r, plan)
             B2.rec_bec2_read(rec, text, list(plan.decs.values()), plan.ecc_privs, orc, True, auth=B2.proj_bec2(f))
+        # error-path histories: refused write then correct write of the same object; reads without a usable decryptor
+        # (MAC checking on and off); three-block headers whose outer blocks disagree
+        E.bec2_error_paths(rec, seams, orc, r, rcpts, C, 6 if tier == "quick" else 40)
         # binding self-test: a read event whose recorded session key is altered must be rejected
         last_read = [e for e in rec.events if e["op"] == "bec2.read" and e["kind"] == "ok"][-1]
         can = dict(last_read)
